@@ -169,7 +169,7 @@ Definition mgr_decode (inp : list Z) : nat * list mop :=
   end.
 
 Definition mgr_run_case (inp : list Z) : list Z :=
-  let '(K, ops) := mgr_decode inp in mrun_obs false K mgr0 ops.
+  let '(K, ops) := mgr_decode inp in mrun_obs true K mgr0 ops.
 
 Definition mgr_prop_case (inp obs : list Z) : Z :=
   let '(K, ops) := mgr_decode inp in mcheck K objs0 [] ops obs.
@@ -181,7 +181,7 @@ Fixpoint mcontended (K : nat) (s : objs) (st : mgr) (ops : list mop) : bool :=
   | [] => false
   | o :: t =>
       let s' := objs_step s o in
-      let '(st', ob) := mobserve (ids K) (mstep false st o) in
+      let '(st', ob) := mobserve (ids K) (mstep true st o) in
       existsb (fun g =>
                  let ns := map snd (group_nodes s' g) in
                  let tt := if g =? 0 then os_total s' else logged K ob g in
@@ -193,11 +193,6 @@ Fixpoint mcontended (K : nat) (s : objs) (st : mgr) (ops : list mop) : bool :=
 Definition mgr_nontrivial_case (inp : list Z) : bool :=
   let '(K, ops) := mgr_decode inp in mcontended K objs0 mgr0 ops.
 
-(* known finding 1: the failure is reproduced exactly by the transcribed code, and disappears when
-   doUpdateOneGroupMinQuotaNoLock also pushes the changed request to the parent's calculator *)
-Definition mgr_finding_sig (inp obs : list Z) : Z :=
-  let '(K, ops) := mgr_decode inp in
-  if eq_lz obs (mrun_obs false K mgr0 ops)
-     && negb (mcheck K objs0 [] ops obs =? 0)
-     && (mcheck K objs0 [] ops (mrun_obs true K mgr0 ops) =? 0)
-  then 1 else 0.
+(* no known finding: the stale request after a min update (findings/C02-stale-request-after-min-update.md)
+   was repaired in /repo by cf84410 and is a regression scenario now *)
+Definition mgr_finding_sig (inp obs : list Z) : Z := 0.
